@@ -11,6 +11,7 @@ from engine import pat
 from engine.util import own_nodes, calls_with_nodes, where
 
 RULES = {
+    "R-09.10": "$GENERATE modifiers default alike in every spelling: each branch of Reader._parse_modify that unpacks regex groups applies every empty-group default (`if v == \"\": v = ...`) that a sibling branch applies to the same variable (an unsigned `${5}` means `${+5}`); and chunked output covers the whole value: _wordbreak slices range(0, len(data), chunksize)",
     "R-09.9": "the tokenizer treats a parenthesised multi-line record like its one-line spelling: whenever Tokenizer.get consumes a delimiter and starts the token scan afresh (`continue` after `(`, `)`, a closing quote, a comment that ends inside parentheses) it first skips the whitespace that follows - only the opening quote, whose content is significant, does not",
     "R-09.8": "records of one owner and type merge while the file is read only if the lookup addresses the stored rdataset by its full (rdclass, rdtype, covers) key: calls that pass <x>.rdtype (or their own rdtype) also pass the matching covers (same rule as C10 R-10.9, run here directly because C10 adopts a C09 rule)",
     "R-09.7": "names inside records of a zone file are made relative to the ZONE origin even below a `$ORIGIN` line: every name-reading call of a text reader passes origin, relativize and relativize_to on (C05 R-05.6 adopted)",
@@ -228,6 +229,31 @@ def run(model, rep, tier):
                   f"the scan restarts (`continue` after `{what}`) without self.skip_whitespace(): inside parentheses the indentation of the next line (or a blank line) after a comment / delimiter "
                   "becomes a token of its own, so the multi-line spelling of a record is a syntax error while its one-line spelling loads", stmt=f"restart {n_cont}")
     rep.floor("R-09.9", n_cont, 4)
+    # ---------------------------------------------------------------- R-09.10
+    pm10 = model.func("dns.zonefile.Reader._parse_modify")
+    branches = []
+    for blk in pat._bodies(pm10.node):
+        unp = [st for st in blk if isinstance(st, ast.Assign) and isinstance(st.targets[0], ast.Tuple) and isinstance(st.value, ast.Call) and src(st.value.func).endswith(".groups")]
+        if unp:
+            vars_ = {e.id for e in unp[0].targets[0].elts if isinstance(e, ast.Name)}
+            dflt = set()
+            for st in blk:
+                if isinstance(st, ast.If) and len(st.body) == 1 and isinstance(st.body[0], ast.Assign) and isinstance(st.body[0].targets[0], ast.Name):
+                    for a in atoms(normalise_compare(st.test)):
+                        if a[1] == "==" and a[2] in ("''", '""') and a[0] == st.body[0].targets[0].id:
+                            dflt.add(a[0])
+            branches.append((unp[0], vars_, dflt))
+    need = set().union(*[d for (_u, _v, d) in branches]) if branches else set()
+    for (u, vars_, dflt) in branches:
+        missing = sorted((need & vars_) - dflt)
+        rep.check(not missing, "R-09.10", pm10.qualname, where(pm10, u), f"`{src(u)[:50]}`: empty groups defaulted like in the sibling branches",
+                  f"`{src(u)[:60]}` unpacks {missing} from regex groups that may be empty but does not default them (`if v == \"\": v = ...`) as the sibling branches do: this spelling of the modifier "
+                  "is refused while its explicit form and the hand-written expansion load", stmt="generate-defaults")
+    rep.floor("R-09.10", len(branches), 3)
+    wb = model.func("dns.rdata._wordbreak")
+    rep.check(pat.has_expr(wb.node, "[___d[__i:__i + ___c] for __i in range(0, len(___d), ___c)]"), "R-09.10", wb.qualname, where(wb, wb.node), "chunks cover range(0, len(data), chunksize)",
+              "_wordbreak no longer slices data[i:i+chunksize] for i in range(0, len(data), chunksize): some octets of a chunked base64/hex field are dropped for certain lengths and the written zone does not read back",
+              stmt="wordbreak-covers")
     rep.meta["explanation"] = (
         "Three narrow structural clauses: the generic-syntax path encodes with the style's origin and the writer functions cannot raise; a taint-style gate analysis of the owner name in "
         "_rr_line/_generate_line (reachability with the in-zone edge removed, caller-supplied force_name exempt); and who-may-call / must-pass-through for the CNAME-exclusivity hook. "
@@ -235,6 +261,10 @@ def run(model, rep, tier):
 
 
 WITNESSES = [
+    {"id": "c09-generate-unsigned-offset-not-defaulted", "rule": "R-09.10", "file": "dns/zonefile.py", "expect": "fires",
+     "old": "                mod, sign, offset = g2.groups()\n                if sign == \"\":\n                    sign = \"+\"\n", "new": "                mod, sign, offset = g2.groups()\n"},
+    {"id": "c09-wordbreak-drops-last-octet", "rule": "R-09.10", "file": "dns/rdata.py", "expect": "fires",
+     "old": "for i in range(0, len(data), chunksize)]", "new": "for i in range(0, len(data) - 1, chunksize)]"},
     {"id": "c09-comment-in-parens-keeps-indentation", "rule": "R-09.9", "file": "dns/tokenizer.py", "expect": "fires",
      "old": "                        elif self.multiline:\n                            self.skip_whitespace()\n                            token = \"\"\n                            continue", "new": "                        elif self.multiline:\n                            token = \"\"\n                            continue"},
     {"id": "c09-include-origin-set-before-save", "rule": "R-09.6", "file": "dns/zonefile.py", "expect": "fires",
